@@ -100,7 +100,7 @@ func TestVerifC11(t *testing.T) {
 		out.Case(c11RunCase(t, out, d.cfg, c11Scripted(d.ops)))
 		out.Cover("cases_directed")
 	}
-	ncases, nops := 160, 36
+	ncases, nops := 600, 40
 	if verifh.Tier() == "thorough" {
 		ncases, nops = 2400, 60
 	}
